@@ -162,3 +162,149 @@ Section Screen.
       + rewrite Hbel'. destruct (texts ++ bars); [congruence | reflexivity].
       + rewrite Hre', HRsplit. reflexivity.
   Qed.
+
+  (* ---------------------------------------------------------------- the invariant *)
+  (** the cursor: at column 0 below the written rows when cursor_below says so; otherwise
+      wrap-pending on the last row of the region as soon as the region has a row *)
+  Definition cursor_ok (below : bool) (rows : N) (t : term) : Prop :=
+    (below = true -> t_col t = 0%nat) /\ (below = false -> 1 <= rows -> t_col t <> 0%nat).
+
+  (** INV between any two MultiState calls: the written rows are pre ++ log ++ kept ++ live (as
+      rows of W cells), last_line_count counts the live rows, zombie_lines_count the kept rows,
+      all of them within reach of cursor-up *)
+  Definition AInv (m : mstate) (t : term) (g : mghost) : Prop :=
+    exists tg, ms_target m = TTerm tg /\ tt_align tg = Top /\ ms_align m = Top
+      /\ Forall (fun l => is_bar l = false) (ms_orphans m) /\ members_bars m
+      /\ exists L K F,
+           ready Wn Hn (pre ++ L ++ K ++ F) t
+           /\ rows_equiv Wn L (wrap Wn (mg_log g)) /\ rows_equiv Wn K (mg_kept g)
+           /\ rows_equiv Wn F (mg_live g)
+           /\ length F = N.to_nat (tt_n tg) /\ length K = N.to_nat (ms_zombie_lines m)
+           /\ (N.to_nat (tt_n tg) + N.to_nat (ms_zombie_lines m) <= reach t)%nat
+           /\ cursor_ok (tt_below tg) (tt_n tg + ms_zombie_lines m) t.
+
+  Lemma members_bars_upd m i (f : member -> member) :
+    members_bars m ->
+    (forall x ls, m_lines (f x) = Some ls -> m_lines x = Some ls \/ Forall (fun l => is_bar l = true) ls) ->
+    forall mems', mems' = updN (ms_members m) i f ->
+    forall j ls, m_lines (nthN mems' j member_default) = Some ls -> Forall (fun l => is_bar l = true) ls.
+  Proof.
+    intros Hm Hf mems' -> j ls Hj. unfold nthN in Hj.
+    destruct (Nat.eq_dec i (N.to_nat j)) as [->|Hne].
+    - destruct (Nat.lt_ge_cases (N.to_nat j) (length (ms_members m))) as [Hl|Hl].
+      + rewrite updN_nth_eq in Hj by exact Hl. destruct (Hf _ _ Hj) as [Hold|Hnew]; [|exact Hnew].
+        exact (Hm j ls Hold).
+      + rewrite updN_oob in Hj by exact Hl. exact (Hm j ls Hj).
+    - rewrite updN_nth_neq in Hj by exact Hne. exact (Hm j ls Hj).
+  Qed.
+
+  Lemma members_bars_remove m i : members_bars m -> members_bars (ms_remove_idx m i).
+  Proof.
+    intros Hm. unfold ms_remove_idx. destruct (memN i (ms_free m)); [exact Hm|].
+    unfold members_bars. cbn [ms_members set_ms_order set_ms_free set_ms_members].
+    eapply members_bars_upd; [exact Hm | | reflexivity].
+    intros x ls Hx. cbn in Hx. discriminate.
+  Qed.
+
+  Lemma members_bars_fold zs : forall m, members_bars m -> members_bars (fold_left ms_remove_idx zs m).
+  Proof. induction zs as [|z zs IH]; intros m Hm; [exact Hm|]. cbn [fold_left]. apply IH, members_bars_remove, Hm. Qed.
+
+  Lemma members_bars_same m m' : ms_members m' = ms_members m -> members_bars m -> members_bars m'.
+  Proof. unfold members_bars. intros ->. exact (fun x => x). Qed.
+
+  Lemma orphans_force m : Forall (fun l => is_bar l = false) (ms_orphans m) -> ms_orphans m <> [] ->
+    (0 <? visual_line_count (ms_orphans m) W) = true.
+  Proof.
+    intros _ Hne. destruct (ms_orphans m) as [|l r]; [congruence|].
+    rewrite visual_line_count_cons. apply N.ltb_lt. unfold wrapped_height. lia.
+  Qed.
+
+  (* ---------------------------------------------------------------- MultiState::draw *)
+  Definition extra_ok (force : bool) (extra : option (list line)) : Prop :=
+    match extra with Some e => force = true /\ Forall (fun l => is_bar l = false) e | None => True end.
+
+  Lemma text_lines_of_texts m force extra :
+    Forall (fun l => is_bar l = false) (ms_orphans m) -> extra_ok force extra ->
+    Forall (fun l => is_bar l = false) (text_lines_of m extra).
+  Proof.
+    intros Ho He. unfold text_lines_of. apply Forall_app. split; [|exact Ho].
+    destruct extra as [e|]; [exact (proj2 He) | constructor].
+  Qed.
+
+  Lemma no_text_lines m extra : ms_has_text m extra = false -> text_lines_of m extra = [].
+  Proof.
+    unfold ms_has_text, text_lines_of. destruct extra as [e|]; [discriminate|].
+    destruct (ms_orphans m); [reflexivity | discriminate].
+  Qed.
+
+  Lemma draw_inv m t g force extra now c :
+    AInv m t g -> extra_ok force extra -> fits_act W H now m (ADraw force extra) ->
+    let r := ms_draw W H nofaults m force extra now c in
+    AInv (fst4 r) (run_ops Wn Hn t (snd (fst (fst r)))) (g_act W now m (ADraw force extra) g)
+    /\ ms_orphans (fst4 r) = (if ms_attempt W m force extra now then [] else ms_orphans m).
+  Proof using HW HH.
+    intros (tg & Ht & Hal & Hma & Horph & Hmb & L & K & F & Hr & HL & HK & HF & HlF & HlK & Hreach & Hcur)
+           Hex Hfit.
+    cbv zeta. cbn [g_act fits_act] in *.
+    rewrite (ms_draw_unfold W H nofaults m force extra now c tg Ht). cbv zeta.
+    assert (Hatt : ms_attempt W m force extra now
+                   = fst (tt_allow (if ms_has_text m extra then tt_adjust_clear tg (ms_zombie_lines m) else tg)
+                                   (force || (0 <? visual_line_count (ms_orphans m) W)) now)).
+    { unfold ms_attempt. rewrite Ht. reflexivity. }
+    rewrite Hatt in *. clear Hatt.
+    set (ht := ms_has_text m extra) in *.
+    set (tg1 := if ht then tt_adjust_clear tg (ms_zombie_lines m) else tg) in *.
+    destruct (tt_allow_fields tg1 (force || (0 <? visual_line_count (ms_orphans m) W)) now) as (En & Eb & Ea).
+    assert (Hforced : ht = true -> fst (tt_allow tg1 (force || (0 <? visual_line_count (ms_orphans m) W)) now) = true).
+    { intros Hht. unfold ht, ms_has_text in Hht.
+      assert (Hf : (force || (0 <? visual_line_count (ms_orphans m) W)) = true).
+      { destruct extra as [e|]; [destruct Hex as [-> _]; reflexivity|].
+        cbn [orb] in Hht. rewrite orphans_force; [apply orb_true_r | exact Horph |].
+        destruct (ms_orphans m); [discriminate | discriminate]. }
+      rewrite Hf. reflexivity. }
+    destruct (tt_allow tg1 (force || (0 <? visual_line_count (ms_orphans m) W)) now) as [allowed tg2] eqn:Eal.
+    cbn [fst snd] in *.
+    destruct allowed; cbn [negb].
+    2: { assert (Hht : ht = false) by (destruct ht; [specialize (Hforced eq_refl); discriminate | reflexivity]).
+         unfold fst4. cbn [fst snd]. rewrite run_ops_nil. unfold tg1 in *. rewrite Hht in *.
+         split; [|reflexivity].
+         exists tg2. split; [reflexivity|]. split; [congruence|]. split; [exact Hma|].
+         split; [exact Horph|]. split; [exact Hmb|]. exists L, K, F.
+         cbn [ms_zombie_lines set_ms_target set_ms_zombie_lines]. rewrite En, Eb.
+         repeat split; try assumption; apply Hcur. }
+    (* attempted *)
+    clear Hforced. specialize (Hfit eq_refl). apply N.leb_le in Hfit.
+    rewrite ms_frame_split.
+    pose proof (text_lines_of_texts m force extra Horph Hex) as Htexts.
+    pose proof (bar_lines_bars m Hmb) as Hbars.
+    set (tgd := mktt (tt_n tg2) (tt_rl tg2) (ms_align m) (tt_below tg2)).
+    assert (En1 : tt_n tg1 = tt_n tg + (if ht then ms_zombie_lines m else 0)).
+    { unfold tg1. destruct ht; cbn; lia. }
+    assert (Eb1 : tt_below tg1 = tt_below tg) by (unfold tg1; destruct ht; reflexivity).
+    set (C := pre ++ L ++ (if ht then [] else K)).
+    set (F1 := if ht then K ++ F else F).
+    assert (HCF : C ++ F1 = pre ++ L ++ K ++ F).
+    { unfold C, F1. destruct ht; rewrite <- ?app_assoc; cbn [app]; reflexivity. }
+    pose proof (term_draw_rows C F1 t tgd (text_lines_of m extra) (bar_lines_of m) c) as Hd.
+    cbv zeta in Hd. destruct Hd as (Hn3 & Hrl3 & Hal3 & RT & RB & Hr' & HeT & HeB & HlB & Hne & Hnil).
+    { exact Hma. }
+    { rewrite HCF. exact Hr. }
+    { unfold F1, tgd. cbn [tt_n]. rewrite En, En1. destruct ht; rewrite ?app_length; lia. }
+    { unfold tgd. cbn [tt_n]. rewrite En, En1. destruct ht; lia. }
+    { unfold tgd. cbn [tt_n tt_below]. rewrite En, En1, Eb, Eb1. intros Hge.
+      destruct Hcur as [Hc1 Hc2]. destruct (tt_below tg); [apply Hc1; reflexivity|].
+      apply Hc2; [reflexivity|]. destruct ht; lia. }
+    { exact Htexts. } { exact Hbars. } { destruct ht; lia. }
+    set (td := term_draw W H nofaults tgd (text_lines_of m extra ++ bar_lines_of m) c) in *.
+    set (tg3 := fst (fst (fst td))) in *.
+    set (t' := run_ops Wn Hn t (snd (fst (fst td)))) in *.
+    unfold fst4. cbn [fst snd]. fold t'.
+    set (m0 := set_ms_target (set_ms_zombie_lines (set_ms_orphans m []) (if ht then 0 else ms_zombie_lines m)) (TTerm tg3)).
+    set (zs := head_zombies (ms_order m) (ms_members m)).
+    destruct (fold_remove_other zs m0) as (Fa & Fo & Fz & Ft).
+    set (m2 := fold_left ms_remove_idx zs m0) in *.
+    cbn [ms_align ms_orphans ms_zombie_lines ms_target set_ms_target set_ms_zombie_lines set_ms_orphans m0] in Fa, Fo, Fz, Ft.
+    assert (Hmb2 : members_bars m2) by (apply members_bars_fold; exact Hmb).
+    assert (Hntg : N.to_nat (tt_n tgd) = length F1).
+    { unfold F1, tgd. cbn [tt_n]. rewrite En, En1. destruct ht; rewrite ?app_length; lia. }
+    assert (HlB' : length RB = N.to_nat (visual_line_count (bar_lines_of m) W)) by (rewrite HlB, Hn3; reflexivity).
